@@ -175,6 +175,15 @@ class TG:
             if k in ('int', 'bigint', 'float', 'byte', 'bool', 'str', 'opt'):
                 return self.lit(t)
         c = r.random()
+        if k in ('bool', 'str', 'list', 'opt') and r.random() < 0.12:
+            # a field of that type read through an object (a pointer inside the interpreter)
+            os_ = [(n, ty) for sc in self.scopes for n, ty in sc.items() if ty[0] == 'class']
+            if os_:
+                n, ty = r.choice(os_)
+                fs_ = [f for f, ft in self.classes[ty[1]]["fields"].items() if ft == t]
+                if fs_:
+                    self.features.add("field_read_" + k)
+                    return "%s.%s" % (n, r.choice(fs_))
         if k == 'int':
             if c < 0.25:
                 return self.lit(t)
@@ -391,6 +400,7 @@ class TG:
         for ci in range(r.choice([1, 2])):
             cn = self.fresh("K")
             fi, fs, fl, fo = self.fresh("fi"), self.fresh("fs"), self.fresh("fl"), self.fresh("fo")
+            fb = self.fresh("fb")
             a1, a2 = self.fresh("a"), self.fresh("a")
             mget, madd, mname, mself = self.fresh("mg"), self.fresh("ma"), self.fresh("mn"), self.fresh("ms")
             x1 = self.fresh("x")
@@ -399,7 +409,9 @@ class TG:
             p.add(1, "%s: str" % fs)
             p.add(1, "%s: [int...]" % fl)
             p.add(1, "%s: int?" % fo)
+            p.add(1, "%s: bool" % fb)
             p.add(1, "constructor(self, %s: int, %s: str) {" % (a1, a2))
+            p.add(2, "self.%s = %s > 2" % (fb, a1))
             p.add(2, "self.%s = %s" % (fi, a1))
             p.add(2, "self.%s = %s" % (fs, a2))
             p.add(2, "self.%s = [%s, 2]" % (fl, a1))
@@ -419,7 +431,7 @@ class TG:
             p.add(2, "return self")
             p.add(1, "}")
             p.add(0, "}")
-            self.classes[cn] = {"fields": {fi: INT, fs: STR, fl: LIST(INT), fo: OPT(INT)},
+            self.classes[cn] = {"fields": {fi: INT, fs: STR, fl: LIST(INT), fo: OPT(INT), fb: BOOL},
                                 "methods": {mget: ((), INT), madd: ((INT,), INT), mname: ((), STR), mself: ((), CLS(cn))},
                                 "ctor": [INT, STR]}
         # helper functions
